@@ -20,7 +20,7 @@ AlphaCore ==
     {MkVar(1, 1, 1, 0), MkVar(1, 0, 1, 0), [MkVar(1, 1, 1, 0) EXCEPT !.vx = 1], MkVar(1, 1, 1, 1),
      MkVar(2, 1, 1, 0), MkVar(2, 1, 1, 1), MkVar(2, 0, 1, 0), [MkVar(2, 1, 1, 0) EXCEPT !.tx = 1],
      MkBytes(3, P1), MkBytes(3, EmptyP), [MkBytes(3, P1) EXCEPT !.lx = 1],
-     MkBytes(4, ExplicitP(<<0>>)), MkBytes(4, ExplicitP(<<0, 0>>)), MkBytes(4, ExplicitP(<<7, 0>>)),
+     MkBytes(4, ExplicitP(<<0>>)), MkBytes(4, ExplicitP(<<5>>)), MkBytes(4, ExplicitP(<<0, 0>>)), MkBytes(4, ExplicitP(<<7, 0>>)),
      MkBytes(4, ExplicitP(<<0, 9>>)), MkBytes(4, ExplicitP(<<0, 0, 9>>)), MkBytes(4, ExplicitP(<<7, 9>>)),
      MkBytes(5, P1), MkBytes(5, EmptyP),
      MkVar(7, 1, 1, 0), MkBytes(7, EmptyP), MkRec(7, 5)}
